@@ -340,6 +340,8 @@ def run(ctx):
     import C06 as C06mod
     ctx.correspond("gsub-flags", groups=gsub_flag_groups(ctx, shim, ctx.rng("gsub-flags"), ctx.budget(150, 3000), 10),
                    classify=C06mod.gsub_classify, canon=F.canon_panic, only=lambda ln: ln.startswith("gsub "))
+    ctx.correspond("stch-prims", groups=F.stch_prim_groups(ctx.rng("stch-prims"), ctx.budget(40, 400), ctx.budget(100, 500)),
+                   classify=F.classify_stch, canon=F.canon_panic, only=lambda ln: ln.startswith("stch "))
     interior_search(ctx, shim, ctx.rng("interior"), ctx.budget(20000, 300000))
     carry_search(ctx, shim, ctx.rng("carry-exact"), ctx.budget(10000, 200000), pc, pt)
     break_synth_search(ctx, shim, ctx.rng("break-synth"), ctx.budget(200, 4000), 12, pc, pt)
